@@ -406,6 +406,35 @@ Definition temp_data (w : world) (e : eid) (sd : bool) : result N :=
   | None => OutOfFragment (X_STATE + 1)      (* assert sync[changed].temp_file / open() fails *)
   end.
 
+(* SyncManager.handle_cloud_file_not_found_error: the branches that end in PUNT *)
+Definition handle_fnf (w : world) (e : eid) (changed : bool) : result (world * resp) :=
+  let c := w_cfg w in
+  en <- get_e w e ;;
+  if N.ltb (5 * PRIO_ONE) (StateModel.e_prio en) then OutOfFragment X_TOO_MANY
+  else
+    match StateModel.s_path (StateModel.gs en changed) with
+    | None => OutOfFragment (X_STATE + 1)
+    | Some p =>
+      let parent := dirname (cv_of c changed) p in
+      match lookup_path (w_st w) changed (Some parent) with
+      | [] =>
+        match ProvModel.info_path (prov_of w changed) (spath parent) with
+        | Some i =>
+          w1 <- st_op w (fun s => StateModel.update (E w) s changed (Some StateModel.Dir) (Some (kstr (ProvModel.i_oid i)))
+                                                    (Some parent) None (Some true) None) ;;
+          ROk (w1, Punt)
+        | None => ROk (w, Punt)
+        end
+      | pe :: _ =>
+        pn <- get_e w pe ;;
+        if negb (StateModel.tchg (StateModel.s_chg (StateModel.gs pn changed))) || negb (is_creation c pn changed) then
+          if N.leb (StateModel.e_prio en) (2 * PRIO_ONE) then ROk (w, Punt)
+          else if ex_is (StateModel.s_ex (StateModel.gs pn changed)) StateModel.ExExists then OutOfFragment X_FNF_DEEP
+          else ROk (w, Punt)
+        else ROk (w, Punt)
+      end
+    end.
+
 (* SyncManager._create_synced + create_synced *)
 Definition create_synced (w : world) (e : eid) (changed : bool) (tp : str) : result (world * list call * resp) :=
   let synced := negb changed in
@@ -423,7 +452,8 @@ Definition create_synced (w : world) (e : eid) (changed : bool) (tp : str) : res
     w5 <- plain w4 e changed (fun y => StateModel.w_spath y (StateModel.s_path (StateModel.gs en changed))) ;;
     w6 <- upd_entry w5 e synced (kstr (ProvModel.i_oid i)) (Some (pstr (ProvModel.i_path i))) (ProvModel.i_data i) ;;
     ROk (w6, [c], Finished)
-  | ProvModel.Err ProvModel.ENotFound => gate w 3 (OutOfFragment X_FNF_DEEP)
+  | ProvModel.Err ProvModel.ENotFound =>
+    gate w 3 ('(w1, rs) <- handle_fnf w e changed ;; ROk (w1, [mkCall synced (PCreate p d) false [p]], rs))
   | ProvModel.Err ProvModel.ENameError => OutOfFragment X_CREATE_NAME
   | ProvModel.Err _ => OutOfFragment X_CREATE_EXISTS
   end.
@@ -541,7 +571,8 @@ Definition handle_rename (w : world) (e : eid) (changed : bool) (tp : str) : res
           w3 <- plain w2 e changed (fun z => StateModel.w_spath z (StateModel.s_path (StateModel.gs en changed))) ;;
           w4 <- upd_entry w3 e synced (kstr nk) (Some tp) None ;;
           ROk (w4, [mkCall synced (PRename k p) true tg], Finished)
-        | ProvModel.Err ProvModel.ENotFound => gate w 3 (OutOfFragment X_FNF_DEEP)
+        | ProvModel.Err ProvModel.ENotFound =>
+          gate w 3 ('(w1, rs) <- handle_fnf w e changed ;; ROk (w1, [mkCall synced (PRename k p) false tg], rs))
         | ProvModel.Err _ => OutOfFragment X_RENAME_ERR
         end
       end.
@@ -555,7 +586,32 @@ Definition check_disjoint_create (w : world) (e : eid) (changed : bool) (tp : st
        | _ => OutOfFragment X_PEERS
        end.
 
-(* SyncManager.mkdir_synced + unsafe_mkdir_synced (mkdirs = mkdir of the leaf: the parent exists or the call fails) *)
+(* Provider.mkdirs: mkdir of the leaf; on "parent not found" the ancestors are made first, then the leaf again.
+   None = the call raised *)
+Fixpoint mkdirs (fuel : nat) (p : ProvModel.prov) (sd : bool) (path : ProvModel.path) : ProvModel.prov * option ProvModel.key * list call :=
+  let '(p1, r) := ProvModel.mkdir p path in
+  match r with
+  | ProvModel.Ok k => (p1, Some k, [mkCall sd (PMkdir path) true [path]])
+  | ProvModel.Err ProvModel.ENotFound =>
+    let c0 := mkCall sd (PMkdir path) false [path] in
+    match fuel, path with
+    | S f, _ :: _ =>
+      let '(p2, r2, cs) := mkdirs f p sd (removelast path) in
+      match r2 with
+      | Some _ =>
+        let '(p3, r3) := ProvModel.mkdir p2 path in
+        match r3 with
+        | ProvModel.Ok k => (p3, Some k, c0 :: cs ++ [mkCall sd (PMkdir path) true [path]])
+        | ProvModel.Err _ => (p3, None, c0 :: cs ++ [mkCall sd (PMkdir path) false [path]])
+        end
+      | None => (p2, None, c0 :: cs)
+      end
+    | _, _ => (p, None, [c0])
+    end
+  | ProvModel.Err _ => (p1, None, [mkCall sd (PMkdir path) false [path]])
+  end.
+
+(* SyncManager.mkdir_synced + unsafe_mkdir_synced *)
 Definition mkdir_synced (w : world) (e : eid) (changed : bool) (tp : str) : result (world * list call * resp) :=
   let synced := negb changed in
   en <- get_e w e ;;
@@ -563,11 +619,10 @@ Definition mkdir_synced (w : world) (e : eid) (changed : bool) (tp : str) : resu
         others e (lookup_path (w_st w) synced (Some tp)) with
   | [], [] =>
     let p := spath tp in
-    let '(pv, r) := ProvModel.mkdir (prov_of w synced) p in
+    let '(pv, r, cs) := mkdirs (length p) (prov_of w synced) synced p in
     match r with
-    | ProvModel.Ok k =>
+    | Some k =>
       let w1 := with_prov w synced pv in
-      let c := mkCall synced (PMkdir p) true [p] in
       (* already_dir = lookup_oid(synced, oid) *)
       _ <- match StateModel.lookup_oid (w_st w1) synced (Some (kstr k)) with
            | Some e' => if Nat.eqb e' e then ROk tt else OutOfFragment X_MKDIR_OTHER
@@ -576,11 +631,8 @@ Definition mkdir_synced (w : world) (e : eid) (changed : bool) (tp : str) : resu
       w2 <- plain w1 e synced (fun z => StateModel.w_spath z (Some tp)) ;;
       w3 <- plain w2 e changed (fun z => StateModel.w_spath z (StateModel.s_path (StateModel.gs en changed))) ;;
       w4 <- upd_entry w3 e synced (kstr k) (Some tp) None ;;
-      ROk (w4, [c], Finished)
-    | ProvModel.Err ProvModel.ENotFound =>
-      (* mkdirs() walks up and creates the missing ancestors itself: not in the fragment (parents come first) *)
-      OutOfFragment X_MKDIR_ERR
-    | ProvModel.Err _ => OutOfFragment X_MKDIR_ERR
+      ROk (w4, cs, Finished)
+    | None => OutOfFragment X_MKDIR_ERR
     end
   | _, _ => OutOfFragment X_MKDIR_OTHER
   end.
@@ -651,7 +703,7 @@ Definition embrace_change (w : world) (e : eid) (changed : bool) : result (world
     | Some ce =>
       gate w 3
         (cn <- get_e w ce ;;
-         w1 <- set_changed w ce changed (StateModel.CNum 1) ;;            (* conflict[changed].set_aged() *)
+         w1 <- set_changed w ce changed (StateModel.CNum 1000) ;;         (* conflict[changed].set_aged(): changed = 1 *)
          let mn := N.min (StateModel.e_prio en) (StateModel.e_prio cn) in
          (* priorities are never negative in the fragment: sync.priority = min + 0.1; conflict.priority = min *)
          w2 <- set_priority w1 e (mn + 1) ;;
@@ -897,27 +949,65 @@ Definition name_ok (n : ProvModel.name) : bool :=
 Definition path_mem (p : ProvModel.path) (l : list ProvModel.path) : bool := existsb (ProvModel.path_eqb p) l.
 Definition path_del (p : ProvModel.path) (l : list ProvModel.path) : list ProvModel.path := filter (fun q => negb (ProvModel.path_eqb p q)) l.
 
-(* F1: every created name is new (never used before on either side), single component; write and delete address a
-   file the same side created and has not deleted.  [used] = all names ever created, [liveL]/[liveR] = live files
-   created by that side's user *)
-Fixpoint in_F1_from (used liveL liveR : list ProvModel.path) (h : history) : bool :=
+(* The domain of fragment level [lvl].  Ghost bookkeeping while reading the history:
+     used : every leaf name ever given to an object by a user (new names must be new on both sides);
+     lvL/lvR : the files the user of that side created and has not deleted, each with the contents written to it so far;
+     dsL/dsR : the folders the user of that side created (files are created / moved only into the root or these).
+   F1: create / write / delete of files directly in the root; a written content is new for that file
+       (the engine compares content hashes; see the refuted full-strength statement in PropAlgo.v);
+   F2: + rename / move of an own file to a new name;  F3: + mkdir under the root or an own folder. *)
+Definition leaf (p : ProvModel.path) : ProvModel.name := last p [].
+Definition dir_ok (lvl : nat) (ds : list ProvModel.path) (parent : ProvModel.path) : bool :=
+  match parent with [] => true | _ => Nat.leb 3 lvl && path_mem parent ds end.
+Definition name_mem (n : ProvModel.name) (l : list ProvModel.name) : bool := existsb (str_eqb n) l.
+Definition new_leaf (lvl : nat) (used : list ProvModel.name) (ds : list ProvModel.path) (rel : ProvModel.path) : bool :=
+  match rel with
+  | [] => false
+  | _ => name_ok (leaf rel) && negb (name_mem (leaf rel) used) && dir_ok lvl ds (removelast rel)
+  end.
+Fixpoint live_get (p : ProvModel.path) (l : list (ProvModel.path * list N)) : option (list N) :=
+  match l with
+  | [] => None
+  | (q, cs) :: r => if ProvModel.path_eqb p q then Some cs else live_get p r
+  end.
+Definition live_del (p : ProvModel.path) (l : list (ProvModel.path * list N)) : list (ProvModel.path * list N) :=
+  filter (fun x => negb (ProvModel.path_eqb p (fst x))) l.
+Definition n_mem (d : N) (l : list N) : bool := existsb (N.eqb d) l.
+
+Fixpoint in_F_from (lvl : nat) (used : list ProvModel.name) (lvL lvR : list (ProvModel.path * list N))
+         (dsL dsR : list ProvModel.path) (h : history) : bool :=
   match h with
   | [] => true
   | (sd, o) :: r =>
-    let live := if sd then liveR else liveL in
+    let lv := if sd then lvR else lvL in
+    let ds := if sd then dsR else dsL in
+    let go used lv' ds' := if sd then in_F_from lvl used lvL lv' dsL ds' r else in_F_from lvl used lv' lvR ds' dsR r in
     match o with
-    | UCreate [n] _ =>
-      name_ok n && negb (path_mem [n] used) &&
-      (if sd then in_F1_from ([n] :: used) liveL ([n] :: liveR) r else in_F1_from ([n] :: used) ([n] :: liveL) liveR r)
-    | UWrite [n] _ => path_mem [n] live && in_F1_from used liveL liveR r
-    | UDelete [n] =>
-      path_mem [n] live &&
-      (if sd then in_F1_from used liveL (path_del [n] liveR) r else in_F1_from used (path_del [n] liveL) liveR r)
-    | _ => false
+    | UCreate rel d => new_leaf lvl used ds rel && go (leaf rel :: used) ((rel, [d]) :: lv) ds
+    | UWrite rel d =>
+      match live_get rel lv with
+      | Some cs => negb (n_mem d cs) && go used ((rel, d :: cs) :: live_del rel lv) ds
+      | None => false
+      end
+    | UDelete rel =>
+      match live_get rel lv with
+      | Some _ => go used (live_del rel lv) ds
+      | None => false
+      end
+    | URename rel rel' =>
+      Nat.leb 2 lvl &&
+      match live_get rel lv with
+      | Some cs => new_leaf lvl used ds rel' && go (leaf rel' :: used) ((rel', cs) :: live_del rel lv) ds
+      | None => false
+      end
+    | UMkdir rel => Nat.leb 3 lvl && new_leaf lvl used ds rel && go (leaf rel :: used) lv (rel :: ds)
     end
   end.
-Definition in_F1 (c : config) (h : history) : bool :=
-  flavour_ok c && Nat.eqb (c_lvl c) 1 && in_F1_from [] [] [] h.
+Definition in_F (c : config) (h : history) : bool :=
+  flavour_ok c && Nat.leb 1 (c_lvl c) && Nat.leb (c_lvl c) 3 && in_F_from (c_lvl c) [] [] [] [] [] h.
+Definition in_F1 (c : config) (h : history) : bool := Nat.eqb (c_lvl c) 1 && in_F c h.
+Definition in_F2 (c : config) (h : history) : bool := Nat.eqb (c_lvl c) 2 && in_F c h.
+Definition in_F3 (c : config) (h : history) : bool := Nat.eqb (c_lvl c) 3 && in_F c h.
 
 Definition history_of (l : list action) : history :=
   flat_map (fun a => match a with AUser sd o => [(sd, o)] | _ => [] end) l.
@@ -990,7 +1080,7 @@ Fixpoint trace_run (w : world) (l : list action) : list sx :=
   end.
 
 (* request (0 config t0 lg0 (actions))  ->  (initial-world world-after-each-action ...)
-   request (1 config (actions))         ->  in_F1 of the history of the actions *)
+   request (1 config (actions))         ->  in_F (domain of the configured level) of the history of the actions *)
 Definition run (x : sx) : sx :=
   match x with
   | L [A 0; c; A t0; A lg0; acts] =>
@@ -1000,7 +1090,7 @@ Definition run (x : sx) : sx :=
     end
   | L [A 1; c; acts] =>
     match un_config c, un_list un_action acts with
-    | Some c, Some acts => sx_bool (in_F1 c (history_of acts))
+    | Some c, Some acts => sx_bool (in_F c (history_of acts))
     | _, _ => sx_malformed
     end
   | _ => sx_malformed
